@@ -177,15 +177,35 @@ theorem hdr_length (c : Cfg) : (hdr c).length = 5 + (line c).length + 1 := by si
 def offOf (fx : Bool) (c : Cfg) : Nat := if fx then (hdr c).length else max 12 (hdr c).length
 
 /-- **the reader on `header ++ data`** -/
-theorem parseWith_image (fx : Bool) (c : Cfg) (hwf : c.wf) (data : List Byte) (h12 : 12 ≤ (hdr c ++ data).length) :
+theorem probe12_ge (bs : List Byte) (h : 12 ≤ bs.length) : probe12 bs = bs.take 12 := by
+  unfold probe12; exact List.take_append_of_le_length h
+
+/-- on a file of at least 12 bytes the padded probe is the probe -/
+theorem guessProbe_eq_guess (bs : List Byte) (h : 12 ≤ bs.length) : guessProbe bs = guess bs := by
+  unfold guessProbe guess
+  rw [probe12_ge bs h]
+  have e1 : (bs.take 12).take 4 = bs.take 4 := by rw [List.take_take]; congr 1
+  have e2 : ((bs.take 12).drop 4).take 4 = (bs.drop 4).take 4 := by rw [List.drop_take, List.take_take]; congr 1
+  have e3 : ((bs.take 12).drop 8).take 4 = (bs.drop 8).take 4 := by rw [List.drop_take, List.take_take]; congr 1
+  simp only [e1, e2, e3]
+
+/-- the first four bytes of the probe of a file that has them -/
+theorem probe12_take4 (bs : List Byte) (h : 4 ≤ bs.length) : (probe12 bs).take 4 = bs.take 4 := by
+  unfold probe12
+  rw [List.take_take, show min 4 12 = 4 from rfl]
+  exact List.take_append_of_le_length h
+
+theorem parseWith_image (fx : Bool) (c : Cfg) (hwf : c.wf) (data : List Byte) (h12 : fx = false → 12 ≤ (hdr c ++ data).length) :
     parseWith fx (hdr c ++ data) =
       .ok { ch := c.ch, fmt := 0x0E0000 + c.codec, sr := c.sr,
             frames := ((hdr c).length + data.length - offOf fx c) / (bytewidth c.codec * c.ch) } := by
   have hlen : (hdr c ++ data).length = (hdr c).length + data.length := by simp
   have hl := hdr_length c
   have e : hdr c ++ data = [0x50, 0x56, 0x46, 0x31, 0x0A] ++ (line c ++ 0x0A :: data) := by simp [hdr]
-  have hg : guess (hdr c ++ data) = some (.fmt 0x0E0000) := by
-    rw [e]; unfold guess
+  have hg : guessProbe (hdr c ++ data) = some (.fmt 0x0E0000) := by
+    unfold guessProbe
+    simp only []
+    rw [probe12_take4 _ (by omega), e]
     simp only [List.cons_append, List.nil_append, List.take_succ_cons, List.take_zero, preHtk_pvf]
   have hlb := line_bytes c
   have hgl : getLine 31 ((hdr c ++ data).drop 5) = (line c, (line c).length + 1) := by
@@ -194,8 +214,11 @@ theorem parseWith_image (fx : Bool) (c : Cfg) (hwf : c.wf) (data : List Byte) (h
   have htw : (line c).takeWhile (· ≠ 0) = line c := takeWhile_all _ (fun b hb => by rcases hlb b hb with h | h <;> omega)
   obtain ⟨s1, s2, s3⟩ := scan_line c
   obtain ⟨hc, hch1, hch2, hsr1, hsr2⟩ := hwf
-  unfold parseWith
-  rw [if_neg (by omega), hg]
+  unfold parseWith parseWithP
+  rw [if_neg (by
+    rintro ⟨_, h | h⟩
+    · cases h
+    · rw [hlen, hl] at h; omega), hg]
   simp only []
   unfold readHeaderWith
   rw [hgl]
@@ -224,7 +247,7 @@ theorem parseWith_image (fx : Bool) (c : Cfg) (hwf : c.wf) (data : List Byte) (h
     rw [hlen] at h12
     unfold offOf; split
     · omega
-    · exact Nat.max_le.mpr ⟨h12, by omega⟩
+    · exact Nat.max_le.mpr ⟨h12 (by simp_all), by omega⟩
   have hsplit : (hdr c).length + data.length = offOf fx c + ((hdr c).length + data.length - offOf fx c) := by omega
   have := framesOf_nat (offOf fx c) ((hdr c).length + data.length - offOf fx c) _ hpos
   rw [← hsplit] at this
